@@ -142,8 +142,11 @@ func buildOne(id, tier string, race bool, extraOverlay map[string]string, suffix
 	for k, v := range extraOverlay {
 		overlay[k] = v
 	}
+	// leafref.go is git-ignored goyacc output: the tracked source is leafref.y, so the parser is
+	// always regenerated from the working tree's grammar (a stale leafref.go left in the tree by
+	// an earlier "go generate" is overridden by the overlay)
 	lr := filepath.Join(repoRoot, "xpath/grammars/leafref/leafref.go")
-	if _, err := os.Stat(lr); err != nil {
+	{
 		gen := filepath.Join(dir, "leafref.go")
 		goyacc := filepath.Join(verifRoot, "bin", "goyacc")
 		cmd := exec.Command(goyacc, "-o", gen, "-p", "leafref", "-v", filepath.Join(dir, "y.output"),
